@@ -2,7 +2,8 @@
 //! checkpoint and restore (flushes / compactions that create new tables and value-log files), and
 //! after the restore (commits, flush, compaction, reopen, overlapping writers, a reader spanning a
 //! commit); small block cache, value log on or off; the checkpoint directory is also opened as a
-//! database of its own.
+//! database of its own.  One case in four runs with versioning and the B+tree version index: the
+//! history of a key (`hist`, `ckhist`) is then part of the checkpointed state.
 use crate::rng::Rng;
 use crate::util::*;
 use crate::Args;
@@ -17,9 +18,11 @@ pub fn gen(a: &Args) -> i32 {
     let mut st = Stats::default();
     for case in 0..a.cases {
         let mut r = Rng::for_case(a.seed, case);
-        let vlog = r.chance(1, 2) as u8;
-        writeln!(out, "case {case} {vlog}").unwrap();
-        st.bump(if vlog == 1 { "vlog_on" } else { "vlog_off" });
+        // one case in four: versioning with the B+tree version index (history queries are part of the state)
+        let vidx = r.chance(1, 4);
+        let vlog = if vidx { 1 } else { r.chance(1, 2) as u8 };
+        writeln!(out, "case {case} {vlog} {}", vidx as u8).unwrap();
+        st.bump(if vidx { "versioned_index" } else if vlog == 1 { "vlog_on" } else { "vlog_off" });
         let mut vctr = 0u64;
         let mut have_ckpt = false;
         let phase_ops = |r: &mut Rng, out: &mut dyn Write, n: u64, vctr: &mut u64, st: &mut Stats| {
@@ -28,8 +31,13 @@ pub fn gen(a: &Args) -> i32 {
                 if x < 55 {
                     let m = r.range(1, 3);
                     let mut ws = vec![];
+                    let mut used = vec![];
                     for _ in 0..m {
                         let k = r.below(NK);
+                        if vidx && used.contains(&k) {
+                            continue; // one version per key and transaction
+                        }
+                        used.push(k);
                         if r.chance(1, 6) {
                             ws.push(format!("{k}=DEL"));
                         } else {
@@ -45,10 +53,21 @@ pub fn gen(a: &Args) -> i32 {
                     writeln!(out, "flush").unwrap();
                     st.bump("flush");
                 } else if x < 78 {
-                    writeln!(out, "compact").unwrap();
-                    st.bump("compact");
+                    if vidx {
+                        // compaction under versioning: known finding of C10, kept out of this stream
+                        writeln!(out, "hist {}", r.below(NK)).unwrap();
+                        st.bump("hist");
+                    } else {
+                        writeln!(out, "compact").unwrap();
+                        st.bump("compact");
+                    }
                 } else if x < 90 {
-                    writeln!(out, "get {}", r.below(NK)).unwrap();
+                    if vidx && r.chance(1, 2) {
+                        writeln!(out, "hist {}", r.below(NK)).unwrap();
+                        st.bump("hist");
+                    } else {
+                        writeln!(out, "get {}", r.below(NK)).unwrap();
+                    }
                 } else {
                     writeln!(out, "scan").unwrap();
                 }
@@ -66,6 +85,11 @@ pub fn gen(a: &Args) -> i32 {
             if r.chance(1, 3) {
                 writeln!(out, "openckpt").unwrap();
                 st.bump("open_checkpoint_standalone");
+                if vidx {
+                    writeln!(out, "ckhist {}", r.below(NK)).unwrap();
+                    writeln!(out, "ckhist {}", r.below(NK)).unwrap();
+                    st.bump("checkpoint_history_standalone");
+                }
             }
             // now and then the clean-up of a flush made before the restore only runs after it
             let held = r.chance(1, 3);
@@ -79,6 +103,11 @@ pub fn gen(a: &Args) -> i32 {
             writeln!(out, "restore").unwrap();
             st.bump("restore");
             writeln!(out, "scan").unwrap();
+            if vidx {
+                for k in 0..NK {
+                    writeln!(out, "hist {k}").unwrap();
+                }
+            }
             if held {
                 vctr += 1;
                 writeln!(out, "txn {}={}:9", r.below(NK), vctr).unwrap();
@@ -109,6 +138,11 @@ pub fn gen(a: &Args) -> i32 {
         }
         let _ = have_ckpt;
         writeln!(out, "scan").unwrap();
+        if vidx {
+            for k in 0..NK {
+                writeln!(out, "hist {k}").unwrap();
+            }
+        }
     }
     if !a.stats.is_empty() {
         std::fs::write(&a.stats, st.to_json()).unwrap();
@@ -137,6 +171,24 @@ fn show(v: &[u8]) -> String {
 }
 
 fn mk(p: &std::path::Path, vlog: bool) -> Options {
+    if VIDX.load(std::sync::atomic::Ordering::SeqCst) {
+        // versioning with the B+tree version index; no background compaction (compaction under versioning loses
+        // history: known finding of C10)
+        let mut o = Options::new();
+        o.path = p.to_path_buf();
+        o.enable_versioning = true;
+        o.enable_vlog = true;
+        o.vlog_value_threshold = 0;
+        o.vlog_max_file_size = 2048;
+        o.versioned_history_retention_ns = 0;
+        o.enable_versioned_index = true;
+        o.level0_max_files = 1000;
+        o.max_bytes_for_level = 1 << 40;
+        o.l0_stall_threshold = 1000;
+        o.memtable_stall_threshold = 1000;
+        o.block_size = 256;
+        return o;
+    }
     let mut o = Options::new();
     o.path = p.to_path_buf();
     o.level_count = 3;
@@ -164,6 +216,33 @@ fn scan(t: &Tree) -> Result<String, String> {
         items.push(format!("{}={}", k.trim_start_matches("key"), show(&v)));
         ok = it.next().map_err(|e| err_name(&e))?;
         if items.len() > 100 {
+            return Err("runaway".into());
+        }
+    }
+    Ok(if items.is_empty() { "-".into() } else { items.join(",") })
+}
+
+static VIDX: std::sync::atomic::AtomicBool = std::sync::atomic::AtomicBool::new(false);
+
+/// the retained versions of one key, newest first, as value ids
+fn hist(t: &Tree, k: &str) -> Result<String, String> {
+    let tx = t.begin().map_err(|e| err_name(&e))?;
+    let lo = key(k);
+    let mut hi = lo.clone();
+    hi.push(0);
+    let o = surrealkv::HistoryOptions::new().with_tombstones(true);
+    let mut it = tx.history_with_options(lo, hi, &o).map_err(|e| err_name(&e))?;
+    let mut items = vec![];
+    let mut ok = it.seek_first().map_err(|e| err_name(&e))?;
+    while ok && it.valid() {
+        if it.key().is_tombstone() {
+            items.push("T".to_string());
+        } else {
+            let v = it.value().map_err(|e| err_name(&e))?;
+            items.push(show(&v));
+        }
+        ok = it.next().map_err(|e| err_name(&e))?;
+        if items.len() > 200 {
             return Err("runaway".into());
         }
     }
@@ -209,6 +288,7 @@ pub fn exec(a: &Args) -> i32 {
                     dir = tempfile::tempdir().expect("tempdir");
                     ckpt = tempfile::tempdir().expect("tempdir");
                     vlog = w[2] == "1";
+                    VIDX.store(w.get(3).copied() == Some("1"), std::sync::atomic::Ordering::SeqCst);
                     match TreeBuilder::with_options(mk(dir.path(), vlog)).build() {
                         Ok(t) => {
                             tree = Some(t);
@@ -251,6 +331,35 @@ pub fn exec(a: &Args) -> i32 {
                 Some("scan") => {
                     let Some(t) = tree.as_ref() else { return "bad-op".into() };
                     scan(t).unwrap_or_else(|e| format!("err:{e}"))
+                }
+                Some("hist") => {
+                    let Some(t) = tree.as_ref() else { return "bad-op".into() };
+                    hist(t, w[1]).unwrap_or_else(|e| format!("err:{e}"))
+                }
+                Some("ckhist") => {
+                    // the history of one key in a copy of the checkpoint directory opened as a database of its own
+                    let p = ckpt.path().join(format!("c{nckpt}"));
+                    let tmp = tempfile::tempdir().expect("tempdir");
+                    fn cp(a: &std::path::Path, b: &std::path::Path) {
+                        std::fs::create_dir_all(b).unwrap();
+                        for e in std::fs::read_dir(a).unwrap().flatten() {
+                            let d = b.join(e.file_name());
+                            if e.path().is_dir() {
+                                cp(&e.path(), &d);
+                            } else {
+                                let _ = std::fs::copy(e.path(), d);
+                            }
+                        }
+                    }
+                    cp(&p, tmp.path());
+                    match TreeBuilder::with_options(mk(tmp.path(), vlog)).build() {
+                        Ok(t2) => {
+                            let s = hist(&t2, w[1]).unwrap_or_else(|e| format!("err:{e}"));
+                            let _ = rt.block_on(t2.close());
+                            s
+                        }
+                        Err(e) => en(&e),
+                    }
                 }
                 Some("flush") => {
                     let Some(t) = tree.as_ref() else { return "bad-op".into() };
